@@ -227,6 +227,7 @@ package keeper
 //@ ensures [C13,C02] provider_gets_fee_minus_tax: err == NoErr ==> (forall d Str :: {amt(c1, d)} amt(c1, d) == pfxSum(old(raw), PEarned(provider), d) + amt(fee, d) - taxSum(fee, len(fee), d))
 //@ ensures [C13] owner_gets_the_same_amount: err == NoErr ==> (forall d Str :: {amt(c2, d)} amt(c2, d) ==
 //@      pfxSum(wrEarned(old(raw), provider, c1, len(c1)), POwnerEarned(ownerOf(old(raw), provider)), d) + amt(fee, d) - taxSum(fee, len(fee), d))
+//@ ensures witnesses_are_coin_lists: err == NoErr ==> len(c1) >= 0 && len(c2) >= 0
 //@ ensures [C13] exactly_these_records_written: err == NoErr ==> raw == wrOwnerEarned(wrEarned(old(raw), provider, c1, len(c1)), ownerOf(old(raw), provider), c2, len(c2))
 //@ ensures error_changes_no_record: err != NoErr ==> raw == old(raw)
 
@@ -249,3 +250,62 @@ package keeper
 //@                                   : wrOwnerEarned(clearPfx(old(raw), PEarned(provider)), owner, coinsSub(oe, paid), len(coinsSub(oe, paid))))
 //@ ensures [C13] owner_mode_resets_all_its_providers: err == NoErr && len(provider) == 0 ==>
 //@      raw == clearPfx(clrProv(old(raw), old(raw), POwnerProv(owner), itCount(old(raw), POwnerProv(owner))), POwnerEarned(owner))
+
+// ---------------------------------------------------------------- requests, responses, batches (C02, C08, C12, C16, C17)
+//@ func (Keeper).GetRequest
+//@ props C17 C02 C08
+//@ ensures found_iff_record_and_context: found == requestFound(raw, requestID)
+//@ ensures [C17] reconstructed_from_its_context: found ==> request == requestOf(raw, requestID)
+//@ ensures !found ==> request == zero_Request
+
+//@ func (Keeper).GetResponseOutputs
+//@ props C12
+//@ loop 0 invariant pos_in_range: 0 <= iterator_pos && iterator_pos <= itCount(iterator_snap, iterator_pfx)
+//@ loop 0 invariant outputs_so_far: outputs == outsIt(iterator_snap, iterator_pfx, iterator_pos)
+//@ ensures [C12] exactly_the_nonempty_outputs_of_the_batch: result == outputsOf(raw, requestContextID, batchCounter)
+
+//@ func (Keeper).Callback
+//@ props C12
+//@ modifies cblog
+//@ ensures [C12] one_callback_with_batch_outputs: (let c := ctxOrZero(raw, requestContextID) in let outs := outputsOf(raw, requestContextID, c.BatchCounter) in
+//@      cblog == cbResp(old(cblog), requestContextID, outs, len(outs) < c.BatchResponseThreshold))
+
+//@ func (Keeper).CompleteBatch
+//@ props C12 C09
+//@ modifies cblog
+//@ ensures [C12] marks_batch_completed_only: result == requestContext[BatchState := BATCHCOMPLETED]
+//@ ensures [C12] callback_once_for_module_contexts: (let c := ctxOrZero(raw, requestContextID) in let outs := outputsOf(raw, requestContextID, c.BatchCounter) in
+//@      cblog == (len(requestContext.ModuleName) != 0 ? cbResp(old(cblog), requestContextID, outs, len(outs) < c.BatchResponseThreshold) : old(cblog)))
+
+//@ func (Keeper).AddResponse
+//@ props C02 C08 C05 C12 C04 C07
+//@ modifies raw, bal, supply, cblog
+//@ maypanic
+//@ preserves wf: WF(raw)
+//@ preserves [C03] deposits_in_custody: depInv(raw, bal)
+//@ requires [C04] binding_of_request_exists: requestFound(raw, requestID) ==> bindFound(raw, reqSvc(raw, requestID), reqProv(raw, requestID))
+//@ requires fee_nonneg: requestFound(raw, requestID) ==> (forall i Int :: {reqFee(raw, requestID)[i]} 0 <= i && i < len(reqFee(raw, requestID)) ==> reqFee(raw, requestID)[i].Amount >= 0)
+//@ requires stored_in_range: requestFound(raw, requestID) ==> rng_RequestContext(ctxOf(raw, reqCtxId(raw, requestID)))
+//@ requires consumer_ordinary: requestFound(raw, requestID) ==> ordinary(reqConsumer(raw, requestID))
+//@ ensures [C08,C05] accepted_only_from_its_provider_while_pending: err == NoErr ==> requestFound(old(raw), requestID) && addrEq(provider, reqProv(old(raw), requestID)) && isActive(old(raw), requestID)
+//@ ensures [C08] rejected_response_changes_nothing: (!requestFound(old(raw), requestID) || !addrEq(provider, reqProv(old(raw), requestID)) || !isActive(old(raw), requestID))
+//@      ==> err != NoErr && raw == old(raw) && bal == old(bal) && supply == old(supply) && cblog == old(cblog)
+//@ ensures [C02,C08] no_longer_pending_in_either_index: err == NoErr ==> raw[KActID(requestID)] == bnil &&
+//@      raw[KActB(reqSvc(old(raw), requestID), provider, reqOf(old(raw), requestID).ExpirationHeight, requestID)] == bnil
+//@ ensures [C02,C04] malformed_output_slashes_and_refunds_the_consumer: err == NoErr && malformed(output) ==>
+//@      bal == bankMove(bankBurn(old(bal), depositAcc, slashBurn(old(raw), requestID)), requestAcc, reqConsumer(old(raw), requestID), reqFee(old(raw), requestID)) &&
+//@      supply == supplyBurn(old(supply), slashBurn(old(raw), requestID))
+//@ ensures [C02,C04] good_response_pays_tax_and_never_slashes: err == NoErr && !malformed(output) ==> supply == old(supply) &&
+//@      (forall a Bytes, d Str :: {bal[a][d]} bal[a][d] == old(bal)[a][d]
+//@          - (a == requestAcc ? taxSum(reqFee(old(raw), requestID), len(reqFee(old(raw), requestID)), d) : 0)
+//@          + (a == feeCollectorAcc ? taxSum(reqFee(old(raw), requestID), len(reqFee(old(raw), requestID)), d) : 0))
+//@ ensures [C08] response_recorded: err == NoErr ==> raw[KResp(requestID)] == enc_Response(mkResponse(provider, reqConsumer(old(raw), requestID), result, output, reqCtxId(old(raw), requestID), reqOf(old(raw), requestID).RequestContextBatchCounter))
+//@ ensures [C07] volume_counts_this_response: err == NoErr ==> volOf(raw, reqConsumer(old(raw), requestID), reqSvc(old(raw), requestID), provider) == wrap_u64(volOf(old(raw), reqConsumer(old(raw), requestID), reqSvc(old(raw), requestID), provider) + 1)
+//@ ensures [C12] response_counted_and_batch_completed_when_all_answered: err == NoErr ==> (let id := reqCtxId(old(raw), requestID) in let c := ctxOf(old(raw), id) in let n := ctxOf(raw, id) in
+//@      ctxFound(raw, id) && n.BatchResponseCount == wrap_u32(c.BatchResponseCount + 1) && sameIdentity(c, n) && n.State == c.State && n.BatchCounter == c.BatchCounter && n.BatchRequestCount == c.BatchRequestCount &&
+//@      n.BatchState == (wrap_u32(c.BatchResponseCount + 1) == c.BatchRequestCount ? BATCHCOMPLETED : c.BatchState))
+//@ ensures [C16,C15] touches_only_its_own_records: err == NoErr ==> (forall k Key :: {raw[k]}
+//@      (k != KResp(requestID) && k != KActID(requestID) && k != KActB(reqSvc(old(raw), requestID), provider, reqOf(old(raw), requestID).ExpirationHeight, requestID) &&
+//@       k != KVol(reqConsumer(old(raw), requestID), reqSvc(old(raw), requestID), provider) && k != KCtx(reqCtxId(old(raw), requestID)) &&
+//@       k != KBind(reqSvc(old(raw), requestID), reqProv(old(raw), requestID)) && !(is_KEarned(k) && kea_prov(k) == provider) && k != KOwnerEarned(ownerOf(old(raw), provider)))
+//@      ==> raw[k] == old(raw)[k])
